@@ -1,5 +1,22 @@
 """C07 — parsing is total: an error or a well-formed tree, and nothing left running."""
+import os
+import subprocess
+
 import checklib
+
+GEN = os.path.join(checklib.LEAN, "Ecal", "Gen", "C07.lean")
+
+
+def extract(ctx):
+    """regenerate lean/Ecal/Gen/C07.lean (token ids, astNodeMap, block-brace entry, synchronisation skeleton of the
+    token channel) from the tree under test; theorems table_matches_source / source_selects_sync decide over it"""
+    binp = checklib.go_build(ctx, out="harness-extract")
+    if os.path.exists(GEN):
+        os.remove(GEN)
+    p = subprocess.run([binp, "C07", "-tool", "gen", GEN], env=checklib.GOENV, stdout=subprocess.PIPE,
+                       stderr=subprocess.STDOUT, text=True, timeout=120)
+    if p.returncode != 0 or not os.path.exists(GEN):
+        raise checklib.CheckError("C07 fact extractor failed: " + p.stdout[-800:])
 
 
 def decode(p):
@@ -15,6 +32,7 @@ def decode(p):
 
 
 SPEC = dict(
+    extract=extract,
     lean_modules=["Ecal.Props.C07"],
     shards=16,
     rule=("cases = source texts: the inputs of the repaired defects and ~100 directed corner cases, every byte string of "
@@ -24,23 +42,48 @@ SPEC = dict(
           "~630 try statements with errors inside except/otherwise/finally clauses, 2k/20k strings with invalid UTF-8 and control characters, 3 long-tail inputs (early error followed by 10^5 tokens). "
           "The real lexer's token list is part of the case; compared: tree shape (names, token values, raw flag; no "
           "positions) or error kind+line+col, model verdicts wf=1 (WellFormed on the identical tree) and leak=0 measured by goroutine accounting around parser.Parse. "
+          "Further families: 26k/120k grammar-driven VALID programs (all statement/expression kinds, depth <=10, some of ~10^4 tokens; "
+          ">=20k distinct OK trees), nesting of every nesting construct to depth 50, one 10^5-deep parenthesis nesting, the deterministic "
+          "injection sweep (17 stray texts inserted at / replacing EVERY token position of 29 programs, every prefix: ~19k), long tails "
+          "after late / nested / extra-token errors, non-ASCII space/control/digit and exponent forms. On every OK tree the real "
+          "PrettyPrint and ParseWithRuntime(ECAL provider)+Validate run under recover (a panic = violation). "
+          "NOTE: wf= and leak= on the MODEL line are constants (wf=1 by parse_wellformed/_strict/parse_walkable, leak=0 by "
+          "producer_done_at_return); what is compared is the tree text / error kind+line+col and the MEASURED leak. "
+          "kf=unexpected-end-unpositioned marks the cases whose error is the unpositioned `Unexpected end` (spec = EOF position). "
           "Non-trivial = the token list has at least 3 tokens."),
     exhaustive="all byte strings <=3 over 20 symbols; all token-text sequences <=3 (quick) / <=4 (thorough) over 40 tokens",
     trusted_base=[
         "the token list handed to the model parser is produced by the real lexer (parser.LexToList); the lexer itself is not modelled here (C18/C08)",
+        "facts extracted by go/ast from the tree under test (harness C07 -tool gen -> lean/Ecal/Gen/C07.lean): token ids, astNodeMap, block-brace entry, go statements / close / defer drain skeleton",
         "the 3-slot look-ahead ring is not modelled in the parser model (argued invisible, notes in Model/Parser.lean) and over-approximated in the channel model",
         "goroutine accounting AT RETURN TIME: directly after parser.Parse returns the goroutine dump is searched for frames of package parser; only a lexer goroutine past its close() (single frame (*lexer).run) is given time to end; long-tail inputs (10^5 tokens after a first-token error) keep anything asynchronous busy at that moment",
     ],
-    assumptions=[],
+    assumptions=[
+        "LEXER TERMINATION is not proved here: that the real lexer terminates on every input and that its token stream is finite and "
+        "ends with close (EOF or Error token last) is an assumption of the parser model (which starts from the token list) and of the "
+        "channel model (init n); the lexer model's own theorem (lexer_always_closes, owner: C18) is to be imported when merged; until "
+        "then the lexer half of 'terminates for every input' is HANG detection on the generated inputs only",
+        "RECURSION DEPTH: the model parser recurses on an unbounded fuel; the real parser recurses on the Go stack (default limit 1 GB): "
+        "measured by the reviewer, parser.Parse dies with an unrecoverable `fatal error: stack overflow` at about 5M nested `(` (10 MB "
+        "of input), 3M `[`, 2M `if a {`; 1M nested parentheses parse in 3.4 s. The run contains one 10^5-deep nesting case; inputs nested "
+        "deeper than ~10^6 are outside what is checked (proposed known finding deep-nesting-stack-overflow; no directed kf case: a 10 MB "
+        "input with its token list does not fit the budget)",
+        "Go channel semantics (`for range ch` ends when the channel is observed closed; an unbuffered send completes with a receive) as "
+        "encoded in Model/TokenChannel.lean",
+        "the consumer census `walkable` (Model/ParserWalk.lean) is a hand transcription of the unguarded dereferences of Validate/Eval/"
+        "PrettyPrint; tested by running PrettyPrint and ParseWithRuntime+Validate on every OK tree, Eval is not run here (C06)",
+    ],
     decode=decode,
 )
 
 META = dict(
     technique="Lean 4 theorems over an executable model of parser.go (all token lists) + channel transition system + differential correspondence with parser.Parse and goroutine accounting",
-    level_text=("Proof on the model parser for every token list: result is a tree xor an error, never a nil dereference; a returned tree is "
-                "WellFormed (parse_wellformed, full: no nil child, known node names, token clause, per-kind child counts/kinds the consumers index unchecked); a fuel bound linear in the token "
-                "count is never exhausted; in the channel model the lexer goroutine is terminated at every return when the drain is present "
-                "(negative witness without). Model tied to parser.go by exhaustive-for-short / random-for-long differential runs."),
+    level_text=("Proof on the model parser for every token list: result is a tree xor an error, never a nil dereference; an error has one of the six kinds and the position of an input "
+                "token or is the unpositioned Unexpected end (error_position_from_input; known finding); a returned tree is "
+                "WellFormed and strictly well-formed (parse_wellformed, parse_wellformed_strict: no nil child, known node names, operands carry tokens, per-kind child counts/kinds) "
+                "and therefore walkable by the transcribed consumer census (wellformed_walkable); the model's grammar table equals the extracted astNodeMap (table_matches_source); a fuel bound linear in the token "
+                "count is never exhausted; in the channel model selected by the extracted synchronisation skeleton (source_selects_sync) no helper exists and the lexer "
+                "goroutine is past its close at every return (producer_done_at_return; negative witnesses without drain and with an asynchronous drain). Model tied to parser.go by exhaustive-for-short / random-for-long differential runs."),
     level_note=("Trusted: Lean kernel + propext/Classical.choice/Quot.sound; the correspondence harness; the real lexer's token list is an input; "
                 "goroutine accounting is a measurement."),
 )
